@@ -120,6 +120,7 @@ type checkRun struct {
 	files    []string
 	ssaHash  map[string]string
 	contract map[string]*Contract
+	fns      map[string]*ssa.Function
 }
 
 func sanitize(s string) string {
@@ -148,7 +149,7 @@ func runProperty(id, tier string, timeout int, overlay map[string][]byte, only s
 	if pc == nil {
 		return nil, fmt.Errorf("property %s is not configured in props.json", id)
 	}
-	run := &checkRun{id: id, tier: tier, timeout: timeout, labels: map[string]map[string]bool{}, ssaHash: map[string]string{}, contract: map[string]*Contract{}}
+	run := &checkRun{id: id, tier: tier, timeout: timeout, labels: map[string]map[string]bool{}, ssaHash: map[string]string{}, contract: map[string]*Contract{}, fns: map[string]*ssa.Function{}}
 	tmp, err := os.MkdirTemp("/var/tmp", "gocv")
 	if err != nil {
 		return nil, err
@@ -226,6 +227,7 @@ func runProperty(id, tier string, timeout int, overlay map[string][]byte, only s
 			}
 			run.labels[k] = labels
 			run.contract[k] = con
+			run.fns[k] = fn
 			r := e.VerifyFunc(fn, con)
 			if labels != nil {
 				// only the clauses that serve this property are discharged
@@ -564,9 +566,6 @@ func writeReplay(path, id string, g *OblGroup, run *checkRun) string {
 	}
 	fmt.Fprintf(&b, "\nresult: %s\n", tail)
 	os.WriteFile(path, []byte(b.String()), 0o644)
-	if tail == "replayed-on-real-code" {
-		return ""
-	}
 	return tail
 }
 
